@@ -764,3 +764,27 @@ func (g *Gen) chain(t, u string, pending map[string][]string) []AOp {
 	}
 	return out
 }
+
+// MarkerRow builds a row for a marker insert: only the columns an insert needs,
+// a unique name.
+func (g *Gen) MarkerRow(t, name string, n int) map[string]interface{} {
+	tb := g.S.Tables[t]
+	row := map[string]interface{}{}
+	for _, cn := range tb.ColNames() {
+		c := tb.Cols[cn]
+		if c.Min > 0 && KindOf(c) != "atom" || KindOf(c) == "atom" && c.Key.Ref != "" {
+			row[cn] = g.value(c, map[string][]string{})
+		}
+	}
+	for _, ix := range tb.Indexes {
+		for _, cn := range ix {
+			c := tb.Cols[cn]
+			if KindOf(c) == "atom" && c.Key.T == "string" && len(c.Key.Enum) == 0 {
+				row[cn] = name
+			} else if KindOf(c) == "atom" && c.Key.T == "integer" {
+				row[cn] = 100000 + n
+			}
+		}
+	}
+	return row
+}
